@@ -27,7 +27,7 @@ ASSUMPTIONS = [
 ]
 PLAN = {
     "quick": {"shards": 8, "shard_timeout": 300, "case_timeout": 30, "cases": 4000, "max_case_timeouts": 2},
-    "thorough": {"shards": 16, "shard_timeout": 3600, "case_timeout": 60, "cases": 200000, "max_case_timeouts": 10},
+    "thorough": {"shards": 16, "shard_timeout": 3600, "case_timeout": 60, "cases": 1000000, "max_case_timeouts": 10},
 }
 THRESHOLDS = {
     "quick": {"contract_evaluations": 100000, "impl:native": 5000, "impl:ge": 5000, "impl:stack": 5000, "impl:sge": 5000, "impl:dsge": 1000, "exhaustive_spaces": 100, "decider_random_int": 20000, "wide_ranges": 3000, "zero_weight_offers": 2000, "same_seed_streams": 20},
